@@ -184,8 +184,23 @@ pub trait ByValU {
     fn vu(self, x: u8) -> u64;
 }
 
+thread_local! {
+    /// instances that a consuming real function let outlive the call (builder style: the caller
+    /// gets the mock back); released by the harness when the operation is over
+    static KEPT: std::cell::RefCell<Vec<Unimock>> = const { std::cell::RefCell::new(Vec::new()) };
+}
+
+pub fn take_kept() -> Vec<Unimock> {
+    KEPT.with(|k| std::mem::take(&mut *k.borrow_mut()))
+}
+
 pub fn real_vu(u: Unimock, x: u8) -> u64 {
-    run_prog(ProgKind::Real(M::Vu), x, 0, &mut ref_port(&u))
+    let r = run_prog(ProgKind::Real(M::Vu), x, 0, &mut ref_port(&u));
+    if x & 1 == 1 {
+        // the instance outlives the call
+        KEPT.with(|k| k.borrow_mut().push(u));
+    }
+    r
 }
 
 #[unimock(api = ByRcUMock, unmock_with = [real_rcu])]
@@ -269,6 +284,12 @@ pub trait GenM: HasSnap {
             PortReq::Call(m, ..) => panic!("default body of gp cannot call {m:?}"),
         })
     }
+}
+
+// a generic method whose type parameter is not declared: `impl Trait` in argument position
+#[unimock(api = GenIMock)]
+pub trait GenI {
+    fn gi(&self, x: impl Into<u64> + Copy + 'static) -> u64;
 }
 
 // a method without parameters: its inputs are zero-sized, its matchers still decide
@@ -366,7 +387,7 @@ pub fn real_own_single(_u: &Unimock, _x: u8) -> Tracked {
     Tracked::new(&tl_tracker(), 3_000_000 + tl_val_id() % 1_000_000)
 }
 
-#[unimock(api = OwnMock, unmock_with = [real_own_single, _, _, _, _, _, _, _, _, _, _])]
+#[unimock(api = OwnMock, unmock_with = [real_own_single, _, _, _, _, _, _, _, _, _, _, _])]
 pub trait Own {
     fn own_single(&self, x: u8) -> Tracked;
     fn own_multi(&self, x: u8) -> TrackedC;
@@ -379,6 +400,7 @@ pub trait Own {
     fn own_deep_opt(&self, x: u8) -> Option<Result<&u32, Tracked>>;
     fn own_deep_poll(&self, x: u8) -> std::task::Poll<Result<&u32, Tracked>>;
     fn own_poll_multi(&self, x: u8) -> std::task::Poll<Result<&u32, TrackedC>>;
+    fn own_opt_multi(&self, x: u8) -> Option<Result<&u32, TrackedC>>;
 }
 
 // ---------------------------------------------------------------------------------------------
@@ -409,6 +431,8 @@ pub fn dispatch_ref(u: &Unimock, m: M, x: u8, y: u8) -> u64 {
         M::GenU16 => <Unimock as Gen<u16>>::g(u, x as u16),
         M::GmU8 => u.gm::<u8>(x),
         M::GmU16 => u.gm::<u16>(x as u16),
+        M::GiU8 => u.gi(x),
+        M::GiU16 => u.gi(x as u16),
         M::GpU8 => u.gp::<u8>(x),
         M::GpU16 => u.gp::<u16>(x as u16),
         M::Z0 => u.z0(),
@@ -540,6 +564,7 @@ pub fn type_ids() -> &'static Vec<(TypeId, M)> {
             (TypeId::of::<OwnMock::own_deep_opt>(), M::OwnDeepOpt),
             (TypeId::of::<OwnMock::own_deep_poll>(), M::OwnDeepPoll),
             (TypeId::of::<OwnMock::own_poll_multi>(), M::OwnPollMulti),
+            (TypeId::of::<OwnMock::own_opt_multi>(), M::OwnOptMulti),
             (TypeId::of::<AsyncAMock::af>(), M::Af),
             (TypeId::of::<AsyncAMock::ag>(), M::Ag),
             (TypeId::of::<AsyncTMock::at>(), M::At),
@@ -547,6 +572,8 @@ pub fn type_ids() -> &'static Vec<(TypeId, M)> {
             (tid_of(&GenMock::g.with_types::<u16>()), M::GenU16),
             (tid_of(&GenMMock::gm.with_types::<u8>()), M::GmU8),
             (tid_of(&GenMMock::gm.with_types::<u16>()), M::GmU16),
+            (tid_of(&GenIMock::gi.with_types::<u8>()), M::GiU8),
+            (tid_of(&GenIMock::gi.with_types::<u16>()), M::GiU16),
             (tid_of(&GenMMock::gp.with_types::<u8>()), M::GpU8),
             (tid_of(&GenMMock::gp.with_types::<u16>()), M::GpU16),
             (TypeId::of::<ZeroMock::z0>(), M::Z0),
